@@ -757,6 +757,17 @@ def monitor(ctx):
                 FILENAMES[:3] + FILENAMES[-3:] if ctx.quick else FILENAMES):
             monitor_case(ctx, b"BnD", [(name, filename, None, b"v\r\n--Bn")],
                          True, True, True, 0, "names", blocks=[0, 1, 5, 64])
+    # parts without content: an empty text field, a file input nothing was
+    # selected for (filename=""), an empty file — each is a part of the form
+    for filename, ctype in ((None, None), ("", "application/octet-stream"),
+                            ("", None), ("empty.bin", "image/png")):
+        for kbv in (0, 1):
+            for cb in (False, True):
+                monitor_case(ctx, b"BnD", [("a", None, None, b"1"),
+                                           ("up", filename, ctype, b""),
+                                           ("z", None, None, b"")],
+                             True, True, cb, kbv, "empty-parts",
+                             blocks=[0, 1, 7, 64])
     # sizes around the spill threshold and the line limit (monitor only)
     sizes = [BUFSIZE - 1, BUFSIZE, BUFSIZE + 1, MAXLINE - 2, MAXLINE - 1,
              MAXLINE, MAXLINE + 1]
